@@ -218,12 +218,13 @@ def settings_dict(b):
     s = {'year': 2025, 'data_sources': [dict(x['settings']) for x in b['sources']]}
     if b['supplemental']:
         s['data_sources'].insert(0, dict(b['supplemental']['settings']))
+    cfgn = b.get('cfg_name') or 'config'      # settings name files relative to the PARENT of the config folder, whatever that folder is called
     if b['rules_kind'] == 'rules' and not b.get('implicit_rules_file'):
-        s['merchants_file'] = 'config/merchants.rules'
+        s['merchants_file'] = cfgn + '/merchants.rules'
     if b['rule_mode']:
         s['rule_mode'] = b['rule_mode']
     if b['views']:
-        s['views_file'] = 'config/views.rules'
+        s['views_file'] = cfgn + '/views.rules'
     if b['currency']:
         s['currency_format'] = b['currency']
     return s
@@ -231,7 +232,7 @@ def settings_dict(b):
 
 def write_budget(b, root):
     base = os.path.join(root, 'tally') if b.get('layout') == 'new' else root
-    cfg = os.path.join(base, 'config')
+    cfg = os.path.join(base, b.get('cfg_name') or 'config')
     os.makedirs(cfg, exist_ok=True)
     os.makedirs(os.path.join(base, 'data'), exist_ok=True)
     for s in b['sources'] + ([b['supplemental']] if b['supplemental'] else []):
